@@ -104,6 +104,48 @@ func (b *blockingCM) History() ([32]types.BlockID, error) {
 type countingStore struct {
 	syncer.PeerStore
 	banned atomic.Int64 // number of allowConnect calls that reached the ban check
+
+	// calls that can be held to pin a stage: Peers (the peer loop's first move: keeps Run busy)
+	// and UpdatePeerInfo (called by addPeer just before it inserts the peer)
+	holdPeers, holdUpdate holdPoint
+}
+
+// holdPoint holds the next call that passes it (once) until released.
+type holdPoint struct {
+	armed   atomic.Bool
+	entered chan struct{}
+	release chan struct{}
+	once    sync.Once
+}
+
+func (h *holdPoint) arm() {
+	h.entered = make(chan struct{}, 1)
+	h.release = make(chan struct{})
+	h.armed.Store(true)
+}
+
+func (h *holdPoint) pass() {
+	if h.armed.CompareAndSwap(true, false) {
+		h.entered <- struct{}{}
+		<-h.release
+	}
+}
+
+func (h *holdPoint) open() {
+	if h.release != nil {
+		h.once.Do(func() { close(h.release) })
+	}
+	h.armed.Store(false)
+}
+
+func (cs *countingStore) Peers() ([]syncer.PeerInfo, error) {
+	cs.holdPeers.pass()
+	return cs.PeerStore.Peers()
+}
+
+func (cs *countingStore) UpdatePeerInfo(addr string, fn func(*syncer.PeerInfo)) error {
+	cs.holdUpdate.pass()
+	return cs.PeerStore.UpdatePeerInfo(addr, fn)
 }
 
 func (cs *countingStore) Banned(addr string) (bool, error) {
@@ -122,6 +164,9 @@ type bedConfig struct {
 	// FailHistory: the sync loop runs (1ms interval) and its first ChainManager.History call
 	// blocks until the harness lets it fail, after which Run shuts down by itself
 	FailHistory bool `json:",omitempty"`
+	// HoldPeerLoop: the peer loop's first PeerStore.Peers call is held, so Run stays busy until
+	// the harness lets it go
+	HoldPeerLoop bool `json:",omitempty"`
 }
 
 type bed struct {
@@ -201,6 +246,9 @@ func newBedWith(cfg bedConfig, prefill func(syncer.PeerStore, gateway.Header), e
 	}
 	if prefill != nil {
 		prefill(tb.ps, hdr)
+	}
+	if cfg.HoldPeerLoop {
+		tb.ps.holdPeers.arm()
 	}
 	tb.s = syncer.New(l, tb.cm, tb.ps, hdr, opts...)
 	tb.runDone = make(chan error, 1)
